@@ -170,6 +170,67 @@ Proof.
   - unfold read_coll, coll_header. destruct (meta_get s TL k) as [m|]; [|discriminate].
     inversion Hh; subst. rewrite He. cbn. now rewrite ttl_expired.
 Qed.
+(* multi-key / multi-member reads (EXISTS k1 k2 .., MGET, HMGET, SISMEMBER, ZSCORE): an expired key contributes
+   exactly like an absent one *)
+Lemma read_value_dead s now k h :
+  hdr_of s TK k = Some h -> is_expired Compact h now = true -> read_value Compact s now k = None.
+Proof.
+  unfold hdr_of, read_value, kv_raw. destruct (kv_get s k) as [[h' v]|]; [|discriminate].
+  intros Hh He. inversion Hh; subst. now rewrite He.
+Qed.
+Lemma read_value_absent p s now k : hdr_of s TK k = None -> read_value p s now k = None.
+Proof. unfold hdr_of, read_value, kv_raw. destruct (kv_get s k) as [[h' v]|]; [discriminate|reflexivity]. Qed.
+Lemma read_value_live s now k h :
+  hdr_of s TK k = Some h -> is_expired Compact h now = false ->
+  exists v, kv_get s k = Some (h, v) /\ read_value Compact s now k = Some v.
+Proof.
+  unfold hdr_of, read_value, kv_raw. destruct (kv_get s k) as [[h' v]|]; [|discriminate].
+  intros Hh He. inversion Hh; subst. exists v. now rewrite He.
+Qed.
+Lemma read_elem_dead s now t k m h :
+  t <> TK -> hdr_of s t k = Some h -> is_expired Compact h now = true -> read_elem Compact s now t k m = None.
+Proof.
+  intros Ht Hh He. unfold read_elem, coll_header.
+  assert (Hm : match meta_get s t k with Some x => Some (m_hdr x) | None => None end = Some h) by (destruct t; [congruence|auto..]).
+  destruct (meta_get s t k) as [x|]; [|discriminate]. inversion Hm; subst. now rewrite He.
+Qed.
+Lemma read_elem_absent p s now t k m : t <> TK -> hdr_of s t k = None -> read_elem p s now t k m = None.
+Proof.
+  intros Ht Hh. unfold read_elem, coll_header.
+  assert (Hm : match meta_get s t k with Some x => Some (m_hdr x) | None => None end = None) by (destruct t; [congruence|auto..]).
+  destruct (meta_get s t k) as [x|]; [discriminate|reflexivity].
+Qed.
+Lemma read_elem_live s now t k m h :
+  t <> TK -> hdr_of s t k = Some h -> is_expired Compact h now = false ->
+  read_elem Compact s now t k m = el_get s t k (h_ver h) (SB m).
+Proof.
+  intros Ht Hh He. unfold read_elem, coll_header.
+  assert (Hm : match meta_get s t k with Some x => Some (m_hdr x) | None => None end = Some h) by (destruct t; [congruence|auto..]).
+  destruct (meta_get s t k) as [x|]; [|discriminate]. inversion Hm; subst. now rewrite He.
+Qed.
+(* EXISTS / MGET over a list of keys: a key that reads as absent (never written, deleted, or expired) neither counts
+   nor shows a value, wherever it stands in the argument list *)
+Lemma read_exists_app p s now ks1 ks2 :
+  read_exists p s now (ks1 ++ ks2) = read_exists p s now ks1 + read_exists p s now ks2.
+Proof. unfold read_exists. rewrite filter_app, app_length. lia. Qed.
+Lemma read_exists_one p s now k :
+  read_exists p s now [k] = match read_value p s now k with Some _ => 1 | None => 0 end.
+Proof. unfold read_exists. cbn. now destruct (read_value p s now k). Qed.
+Lemma read_exists_skip p s now ks1 k ks2 :
+  read_value p s now k = None -> read_exists p s now (ks1 ++ k :: ks2) = read_exists p s now (ks1 ++ ks2).
+Proof.
+  intros H. change (k :: ks2) with ([k] ++ ks2). rewrite !read_exists_app, read_exists_one, H. lia.
+Qed.
+Lemma read_exists_count p s now ks1 k ks2 v :
+  read_value p s now k = Some v -> read_exists p s now (ks1 ++ k :: ks2) = 1 + read_exists p s now (ks1 ++ ks2).
+Proof.
+  intros H. change (k :: ks2) with ([k] ++ ks2). rewrite !read_exists_app, read_exists_one, H. lia.
+Qed.
+Lemma read_mget_nth p s now ks i k :
+  nth_error ks i = Some k -> nth_error (read_mget p s now ks) i = Some (read_value p s now k).
+Proof. intros H. unfold read_mget. now apply map_nth_error. Qed.
+Lemma read_mget_length p s now ks : length (read_mget p s now ks) = length ks.
+Proof. unfold read_mget. apply map_length. Qed.
 Lemma read_absent p s now t k : hdr_of s t k = None -> read p s now t k = absent_obs.
 Proof.
   unfold read, hdr_of. destruct t.
